@@ -160,6 +160,19 @@ CLAIMS = {
              "members (pinned by the repository's own test).",
         technique="finite tables from the AST + real re; VCs (pyvc mode F) with fold specifications; generated programs as bounded stand-in",
         design="3/C04"),
+    "C05": dict(
+        text="Lookup layer: find_in_scope.check_scope (VCs on the real nested function; its recursion through unnamed "
+             "interface blocks is used through its own contract) returns None or an object whose lower-cased name is the "
+             "requested name and which, when reached through USE, is not PRIVATE under the default accessibility of the "
+             "module; find_in_scope's order (local, INCLUDE, USE tree with filter_public/ONLY/rename, host, ancestors) and "
+             "climb_type_tree's link step are structural obligations. The USE-tree merge (get_use_tree: transitive ONLY and "
+             "rename intersection, re-export accessibility) is decided only on generated multi-file programs with a "
+             "model-derived expected binding for every use site (bounded stand-in, not proof).",
+        note="'the declaration Fortran binds it to' has no specification short of a model of the language; get_use_tree, "
+             "get_definition's statement classifier and %-chain typing are bounded-only. Proof covers the per-scope name and "
+             "accessibility filter.",
+        technique="VCs (pyvc mode F) on check_scope with object references; structural order obligations; generated-program definition oracle as bounded stand-in",
+        design="3/C05"),
     "C12": dict(
         text="Filter layer: the prefix filter of serve_autocomplete.get_candidates (VCs on a mechanical slice of the real "
              "nested function, loop invariant with fold specification) keeps exactly the candidates whose renamed or own "
